@@ -111,6 +111,7 @@ pub fn scripts_needed(tx: &MintedTx, utxos: &[ResolvedInput]) -> Result<ScriptsN
                 .enumerate()
                 .filter_map(|(ix, cert)| match cert {
                     Certificate::StakeDeregistration(StakeCredential::ScriptHash(h))
+                    | Certificate::Reg(StakeCredential::ScriptHash(h), _)
                     | Certificate::UnReg(StakeCredential::ScriptHash(h), _)
                     | Certificate::VoteDeleg(StakeCredential::ScriptHash(h), _)
                     | Certificate::VoteRegDeleg(StakeCredential::ScriptHash(h), _, _)
